@@ -117,6 +117,11 @@ func arguments(spec *ukit.Spec, sch schema.Type, tier string) map[string][]arg {
 		})
 		_ = pan
 	}
+	// native values the schema rejects (one position corrupted): a rejected call must leave its argument alone too
+	for _, bn := range badNatives(spec, sch) {
+		out["Validate"] = append(out["Validate"], arg{bn, "rejected: " + ukit.Show(bn)})
+		out["Serialize"] = append(out["Serialize"], arg{bn, "rejected: " + ukit.Show(bn)})
+	}
 	// duplicate-denotation probes for maps (distinct raw keys denoting one key)
 	if spec.Kind == ukit.KMap {
 		if gv := ukit.ValidValues(spec.Val, 2); len(gv) > 0 {
@@ -407,7 +412,8 @@ func badNatives(spec *ukit.Spec, sch schema.Type) []any {
 		for _, bad := range cands {
 			var verr error
 			bad := bad
-			pan, _, _ := ukit.Call(func() { verr = sch.Validate(bad) })
+			// judged on a copy: the candidate itself must reach the calls under test untouched
+			pan, _, _ := ukit.Call(func() { verr = sch.Validate(ukit.DeepCopy(bad)) })
 			if pan || verr == nil || seen[ukit.Snapshot(bad)] {
 				continue
 			}
@@ -474,7 +480,14 @@ func partHistory(spec *ukit.Spec, tier string, res *ux.Result, only *replay) {
 		lastNodes = nodes
 		for _, ci := range hist {
 			c := alpha[ci]
-			pan, _, _ := ukit.Call(func() { _, _ = apply(sch, c.Op, c.V()) })
+			pan, _, _ := ukit.Call(func() {
+				v, err := apply(sch, c.Op, c.V())
+				if err == nil && c.Op == "Unserialize" {
+					// the caller owns the returned value (its argument was a fresh copy) and overwrites it in place: the
+					// schema must not have kept a share in it
+					ukit.Scribble(v)
+				}
+			})
 			res.Transitions++
 			if pan {
 				return sch, false
@@ -593,7 +606,7 @@ func main() {
 			}
 			return res.Findings
 		},
-		Rule: "(a,b) every spec of U_2 that ranges over a map (enums, maps, objects, one-ofs, scopes, any, unit-bearing scalars) x its raw values (incl. maps whose distinct raw keys denote one key), their native forms and schema arguments (second instance, single-feature neighbours) x 4 operations, each executed under the default and under every single (thorough: pair of) non-default iteration order(s) of every range-over-map / MapKeys the operation performs (all permutations for <= 4 keys); argument snapshot compared before/after. (c) breadth-first search over call histories of depth <= 3 (thorough 4) over an alphabet of ~12 calls per spec (accepted and rejected calls of all four operations) on one instance; states = distinct deep dumps (incl. unexported caches) of the instance, transitions = calls replayed; every reached instance is compared with a fresh one on self-description, a probe set incl. rejected native values (verdicts, values and error texts with their paths), and the defaults and direct behaviour of every object schema inside it. non-trivial = cases in which more than one order / state was actually explored",
+		Rule: "(a,b) every spec of U_2 that ranges over a map (enums, maps, objects, one-ofs, scopes, any, unit-bearing scalars) x its raw values (incl. maps whose distinct raw keys denote one key), their native forms and schema arguments (second instance, single-feature neighbours) x 4 operations, each executed under the default and under every single (thorough: pair of) non-default iteration order(s) of every range-over-map / MapKeys the operation performs (all permutations for <= 4 keys); argument snapshot compared before/after. (c) breadth-first search over call histories of depth <= 3 (thorough 4) over an alphabet of ~12 calls per spec (accepted and rejected calls of all four operations) on one instance; every value an Unserialize of the history returned is overwritten in place by the caller afterwards; states = distinct deep dumps (incl. unexported caches) of the instance, transitions = calls replayed; every reached instance is compared with a fresh one on self-description, a probe set incl. rejected native values (verdicts, values and error texts with their paths), and the defaults and direct behaviour of every object schema inside it. non-trivial = cases in which more than one order / state was actually explored",
 		Assumptions: []string{
 			"error texts are compared only in the history search (one fixed iteration order; addresses masked); under deviating orders only accept/reject and returned values",
 			"histories are rebuilt from a fresh instance per BFS node (live schema objects cannot be cloned)",
